@@ -62,6 +62,10 @@ func EncodeCMPPContentAndSplit(ctx context.Context, content string, msgFmt datac
 	contents [][]byte, actualMsgFmt datacoding.CMPPDataCoding, err error,
 ) {
 	actualMsgFmt = msgFmt
+	if !datacoding.IsValidCMPPDataCoding(msgFmt) {
+		// GetCMPPCodec falls back to UCS2 for a number it does not know: report what the data really is
+		actualMsgFmt = datacoding.CMPP_CODING_UCS2
+	}
 	var encodedData []byte
 	encoder := datacoding.GetCMPPCodec(msgFmt, content)
 	encodedData, err = encoder.Encode()
@@ -122,6 +126,11 @@ func EncodeSMPPContentAndSplit(ctx context.Context, content string, msgFmt datac
 				return contents, actualMsgFmt, nil
 			}
 		}
+		actualMsgFmt = datacoding.SMPP_CODING_UCS2
+	}
+
+	if !datacoding.IsValidSMPPDataCoding(actualMsgFmt) {
+		// GetSMPPCodec falls back to UCS2 for a number it does not know: report what the data really is
 		actualMsgFmt = datacoding.SMPP_CODING_UCS2
 	}
 
